@@ -32,15 +32,52 @@ type Case struct {
 	Graded  int    `json:"graded_shift,omitempty"` // input is D·A·D⁻¹, D=diag(1,2^s,2^2s)
 	Exp2    int    `json:"exp2,omitempty"`         // input is matrix_row_major · 2^exp2 (ill-conditioned families)
 	Family  string `json:"family,omitempty"`       // "", "spd-wide", "ill-conditioned", "blocks6"
+	// earlier calls on the same InSitu object, oldest first; the call described by Opts/Base is
+	// the last one and the only one that is judged
+	Hist []Step `json:"history,omitempty"`
 }
 
-func (cs *Case) has(tok string) bool {
-	for _, t := range strings.Split(cs.Opts, ",") {
-		if t == tok {
-			return true
-		}
+func (cs *Case) has(tok string) bool { return hasTok(cs.Opts, tok) }
+
+// mode of the InSitu object of the case (sess.setup)
+func (cs *Case) mode() string {
+	switch {
+	case cs.has("Junk"), cs.has("JunkNaN"):
+		return "junk"
+	case cs.has("Buf"):
+		return "buf"
+	case cs.has("InSitu"), cs.has("Swap"), len(cs.Hist) > 0:
+		return "insitu"
 	}
-	return false
+	return ""
+}
+
+type prevCall struct {
+	opts string
+	m    lat.Mat
+}
+
+// prelude lists the calls made on the InSitu object before the judged one: the history of
+// the case, or for the plain "InSitu" token one warm-up call with the same options on a
+// different dense matrix of the same shape.
+func (cs *Case) prelude() []prevCall {
+	var ps []prevCall
+	for _, st := range cs.Hist {
+		var m lat.Mat
+		switch st.Input {
+		case "same":
+			m = cs.input()
+		case "reduced":
+			m = reducedFor(cs.R, cs.C)
+		default:
+			m = warmFor(cs.Routine, st.Opts, cs.R, cs.C)
+		}
+		ps = append(ps, prevCall{st.Opts, m})
+	}
+	if len(cs.Hist) == 0 && cs.has("InSitu") {
+		ps = append(ps, prevCall{cs.Opts, warmFor(cs.Routine, cs.Opts, cs.R, cs.C)})
+	}
+	return ps
 }
 
 func (cs *Case) input() lat.Mat {
@@ -219,10 +256,47 @@ func runCase(cs *Case, bud int64) (out outcome) {
 	scale := scaleOf(A)
 	tol := relTol * scale
 	graded := cs.Graded != 0
-	stale := cs.has("InSitu")
+
+	// exec runs the earlier calls of the case and then the judged call on one InSitu object,
+	// all under the tick budget. An earlier call that fails is not this case's business (it is
+	// judged where it is the last call): the case is discarded.
+	s := newSess(cs)
+	s.nan = cs.has("JunkNaN")
+	discarded := ""
+	exec := func() (any, bool, error) {
+		var err error
+		stage := 0
+		pre := cs.prelude()
+		pan, over := protect(bud, func() {
+			s.setup(cs.mode())
+			for _, p := range pre {
+				if perr := s.call(mk(e, p.m), p.opts); perr != nil {
+					discarded = "earlier call returned an error: " + perr.Error()
+					return
+				}
+				stage++
+			}
+			if cs.has("Swap") {
+				s.swap()
+			}
+			err = s.call(a, cs.Opts)
+		})
+		if pan != nil && stage < len(pre) {
+			discarded = fmt.Sprintf("earlier call panicked: %v", pan)
+			pan = nil
+		}
+		return pan, over, err
+	}
 
 	finish := func(pan any, over bool, err error) bool {
 		out.ticks = verifrtLast
+		if discarded != "" && !over {
+			if len(cs.Hist) == 0 {
+				out.harnessE = "warm-up call failed: " + discarded
+			}
+			out.status = "discarded"
+			return false
+		}
 		if over {
 			out.status = "budget"
 			return false
@@ -255,34 +329,14 @@ func runCase(cs *Case, bud int64) (out outcome) {
 	// ------------------------------------------------------------------ cholesky
 	case "cholesky":
 		ldl, fpd := cs.has("LDL"), cs.has("ForcePD")
-		args := []interface{}{}
-		if ldl {
-			args = append(args, cholesky.LDL{Value: true})
-		}
-		if fpd {
-			args = append(args, cholesky.ForcePD{Value: true})
-		}
 		spd := lat.IsSPD(cs.Base, n)
 		out.class = symClass(cs.Base, n, spd)
 		out.trivial = isDiagonal(cs.Base, n)
-		var L, D ad.Matrix
-		var err error
-		pan, over := protect(bud, func() {
-			if stale {
-				is := &cholesky.InSitu{L: ad.NullDenseMatrix(t, n, n), D: ad.NullDenseMatrix(t, n, n), S: ad.NullScalar(t), T: ad.NullScalar(t)}
-				wargs := append(append([]interface{}{}, args...), is)
-				if _, _, err := cholesky.Run(mk(e, warmSym(n)), wargs...); err != nil {
-					out.harnessE = "warm-up cholesky failed: " + err.Error()
-					return
-				}
-				L, D, err = cholesky.Run(a, wargs...)
-			} else {
-				L, D, err = cholesky.Run(a, args...)
-			}
-		})
-		if !finish(pan, over, err) {
+		if !finish(exec()) {
 			return
 		}
+		L, D := s.M1, s.M2
+		defer s.checkSupplied(f)
 		if L == nil {
 			f.add("nil-factor", "L is nil without error")
 			return
@@ -341,23 +395,11 @@ func runCase(cs *Case, bud int64) (out outcome) {
 		m := cs.R
 		out.class = cs.tallClassOf()
 		out.trivial = isUpperTriangular(cs.Base, m, n)
-		var Q, R ad.Matrix
-		var err error
-		pan, over := protect(bud, func() {
-			if stale {
-				is := gramSchmidt.InSitu{Q: ad.NullDenseMatrix(t, m, n), R: ad.NullDenseMatrix(t, m, n)}
-				if _, _, err := gramSchmidt.Run(mk(e, warmTall(m, n)), is); err != nil {
-					out.harnessE = "warm-up gramSchmidt failed: " + err.Error()
-					return
-				}
-				Q, R, err = gramSchmidt.Run(a, is)
-			} else {
-				Q, R, err = gramSchmidt.Run(a)
-			}
-		})
-		if !finish(pan, over, err) {
+		if !finish(exec()) {
 			return
 		}
+		Q, R := s.M1, s.M2
+		defer s.checkSupplied(f)
 		if Q == nil || R == nil {
 			f.add("nil-factor", "Q or R nil without error")
 			return
@@ -399,28 +441,11 @@ func runCase(cs *Case, bud int64) (out outcome) {
 		out.class = cs.tallClassOf()
 		out.trivial = isBidiagonal(cs.Base, m, n)
 		cu, cv := cs.has("U"), cs.has("V")
-		args := []interface{}{householderBidiagonalization.ComputeU{Value: cu}, householderBidiagonalization.ComputeV{Value: cv}}
-		if cs.has("Eps") {
-			args = append(args, householderBidiagonalization.Epsilon{Value: 1e-12})
-		}
-		var B, U, V ad.Matrix
-		var err error
-		pan, over := protect(bud, func() {
-			if stale {
-				is := &householderBidiagonalization.InSitu{}
-				wargs := append(append([]interface{}{}, args...), is)
-				if _, _, _, err := householderBidiagonalization.Run(mk(e, warmTall(m, n)), wargs...); err != nil {
-					out.harnessE = "warm-up failed: " + err.Error()
-					return
-				}
-				B, U, V, err = householderBidiagonalization.Run(a, wargs...)
-			} else {
-				B, U, V, err = householderBidiagonalization.Run(a, args...)
-			}
-		})
-		if !finish(pan, over, err) {
+		if !finish(exec()) {
 			return
 		}
+		B, U, V := s.M1, s.M2, s.M3
+		defer s.checkSupplied(f)
 		checkUBV(f, A, B, U, V, cu, cv, "bidiagonal", func(i, j int) bool { return !(j == i || j == i+1) }, cs)
 	// ------------------------------------------------------------------ svd
 	case "svd":
@@ -428,28 +453,11 @@ func runCase(cs *Case, bud int64) (out outcome) {
 		out.class = cs.tallClassOf()
 		out.trivial = isDiagonalRect(cs.Base, m, n)
 		cu, cv := cs.has("U"), cs.has("V")
-		args := []interface{}{svd.ComputeU{Value: cu}, svd.ComputeV{Value: cv}}
-		if cs.has("Eps") {
-			args = append(args, svd.Epsilon{Value: 1e-12})
-		}
-		var S, U, V ad.Matrix
-		var err error
-		pan, over := protect(bud, func() {
-			if stale {
-				is := &svd.InSitu{}
-				wargs := append(append([]interface{}{}, args...), is)
-				if _, _, _, err := svd.Run(mk(e, warmTall(m, n)), wargs...); err != nil {
-					out.harnessE = "warm-up failed: " + err.Error()
-					return
-				}
-				S, U, V, err = svd.Run(a, wargs...)
-			} else {
-				S, U, V, err = svd.Run(a, args...)
-			}
-		})
-		if !finish(pan, over, err) {
+		if !finish(exec()) {
 			return
 		}
+		S, U, V := s.M1, s.M2, s.M3
+		defer s.checkSupplied(f)
 		checkUBV(f, A, S, U, V, cu, cv, "diagonal", func(i, j int) bool { return i != j }, cs)
 		if S != nil && len(*f) == 0 && cs.Exp2 == 0 {
 			s := get(S)
@@ -478,28 +486,11 @@ func runCase(cs *Case, bud int64) (out outcome) {
 		out.class = symClass(cs.Base, n, lat.IsSPD(cs.Base, n))
 		out.trivial = isTridiagonal(cs.Base, n)
 		cu := cs.has("U")
-		args := []interface{}{householderTridiagonalization.ComputeU{Value: cu}}
-		if cs.has("Eps") {
-			args = append(args, householderTridiagonalization.Epsilon{Value: 1e-12})
-		}
-		var T, U ad.Matrix
-		var err error
-		pan, over := protect(bud, func() {
-			if stale {
-				is := &householderTridiagonalization.InSitu{}
-				wargs := append(append([]interface{}{}, args...), is)
-				if _, _, err := householderTridiagonalization.Run(mk(e, warmSym(n)), wargs...); err != nil {
-					out.harnessE = "warm-up failed: " + err.Error()
-					return
-				}
-				T, U, err = householderTridiagonalization.Run(a, wargs...)
-			} else {
-				T, U, err = householderTridiagonalization.Run(a, args...)
-			}
-		})
-		if !finish(pan, over, err) {
+		if !finish(exec()) {
 			return
 		}
+		T, U := s.M1, s.M2
+		defer s.checkSupplied(f)
 		checkUMU(f, A, T, U, cu, "tridiagonal", func(i, j int) bool { return i > j+1 || j > i+1 }, true, cs)
 	// ------------------------------------------------------------------ hessenberg
 	case "hessenberg":
@@ -511,29 +502,12 @@ func runCase(cs *Case, bud int64) (out outcome) {
 		out.class = sqClass(cs, &sp)
 		out.trivial = isHessenberg(cs.Base, n)
 		cu := cs.has("U")
-		args := []interface{}{hessenbergReduction.ComputeU{Value: cu}}
 		setZero := !cs.has("SetZero=false")
-		if !setZero {
-			args = append(args, hessenbergReduction.SetZero{Value: false})
-		}
-		var H, U ad.Matrix
-		var err error
-		pan, over := protect(bud, func() {
-			if stale {
-				is := &hessenbergReduction.InSitu{}
-				wargs := append(append([]interface{}{}, args...), is)
-				if _, _, err := hessenbergReduction.Run(mk(e, warmSquare(n)), wargs...); err != nil {
-					out.harnessE = "warm-up failed: " + err.Error()
-					return
-				}
-				H, U, err = hessenbergReduction.Run(a, wargs...)
-			} else {
-				H, U, err = hessenbergReduction.Run(a, args...)
-			}
-		})
-		if !finish(pan, over, err) {
+		if !finish(exec()) {
 			return
 		}
+		H, U := s.M1, s.M2
+		defer s.checkSupplied(f)
 		checkUMU(f, A, H, U, cu, "hessenberg", func(i, j int) bool { return i > j+1 }, setZero, cs)
 	// ------------------------------------------------------------------ QR algorithm
 	case "qrAlgorithm":
@@ -545,35 +519,11 @@ func runCase(cs *Case, bud int64) (out outcome) {
 		out.class = sqClass(cs, &sp)
 		out.trivial = isUpperTriangular(cs.Base, n, n)
 		cu, sym := cs.has("U"), cs.has("Sym")
-		args := []interface{}{qrAlgorithm.ComputeU{Value: cu}}
-		if cs.has("Eps") {
-			args = append(args, qrAlgorithm.Epsilon{Value: 1e-12})
-		}
-		if sym {
-			args = append(args, qrAlgorithm.Symmetric{Value: true})
-		}
-		var T, U ad.Matrix
-		var err error
-		pan, over := protect(bud, func() {
-			if stale {
-				is := &qrAlgorithm.InSitu{InitializeH: true, InitializeU: true}
-				wargs := append(append([]interface{}{}, args...), is)
-				w := warmSquare(n)
-				if sym {
-					w = warmSym(n)
-				}
-				if _, _, err := qrAlgorithm.Run(mk(e, w), wargs...); err != nil {
-					out.harnessE = "warm-up failed: " + err.Error()
-					return
-				}
-				T, U, err = qrAlgorithm.Run(a, wargs...)
-			} else {
-				T, U, err = qrAlgorithm.Run(a, args...)
-			}
-		})
-		if !finish(pan, over, err) {
+		if !finish(exec()) {
 			return
 		}
+		T, U := s.M1, s.M2
+		defer s.checkSupplied(f)
 		if T == nil {
 			f.add("nil-factor", "Schur factor nil without error")
 			return
@@ -596,49 +546,12 @@ func runCase(cs *Case, bud int64) (out outcome) {
 		}
 		out.class = sqClass(cs, &sp)
 		out.trivial = isUpperTriangular(cs.Base, n, n)
-		vec, sym := !cs.has("Vec=false"), cs.has("Sym")
-		args := []interface{}{}
-		if !vec {
-			args = append(args, eigensystem.ComputeEigenvectors{Value: false})
-		}
-		if sym {
-			args = append(args, eigensystem.Symmetric{Value: true})
-		}
-		if cs.has("Eps") {
-			args = append(args, qrAlgorithm.Epsilon{Value: 1e-12})
-		}
-		var ev ad.Vector
-		var V ad.Matrix
-		var err error
-		pan, over := protect(bud, func() {
-			if cs.has("Buf") {
-				// caller-supplied result buffers, first use (no warm-up call)
-				is := &eigensystem.InSitu{Eigenvalues: ad.NullDenseVector(t, n)}
-				if vec {
-					is.Eigenvectors = ad.NullDenseMatrix(t, n, n)
-				}
-				ev, V, err = eigensystem.Run(a, append(append([]interface{}{}, args...), is)...)
-			} else if stale {
-				is := &eigensystem.InSitu{}
-				is.QrAlgorithm.InitializeH = true
-				is.QrAlgorithm.InitializeU = true
-				wargs := append(append([]interface{}{}, args...), is)
-				w := warmSquare(n)
-				if sym {
-					w = warmSym(n)
-				}
-				if _, _, err := eigensystem.Run(mk(e, w), wargs...); err != nil {
-					out.harnessE = "warm-up failed: " + err.Error()
-					return
-				}
-				ev, V, err = eigensystem.Run(a, wargs...)
-			} else {
-				ev, V, err = eigensystem.Run(a, args...)
-			}
-		})
-		if !finish(pan, over, err) {
+		vec := !cs.has("Vec=false")
+		if !finish(exec()) {
 			return
 		}
+		ev, V := s.vec, s.M1
+		defer s.checkSupplied(f)
 		if ev == nil {
 			f.add("nil-factor", "eigenvalue vector nil without error")
 			return
@@ -651,25 +564,41 @@ func runCase(cs *Case, bud int64) (out outcome) {
 			v := get(V)
 			vp = &v
 		}
-		splitWith := func(qargs ...interface{}) bool {
+		// the 2x2 diagonal blocks that the plain QR algorithm leaves for this input: numerically
+		// complex ones (negative discriminant) and ones with real eigenvalues, which a real
+		// Schur form must not contain
+		splitWith := func(qargs ...interface{}) (cplx, real bool) {
 			var T ad.Matrix
 			pan, over := protect(bud, func() { T, _, _ = qrAlgorithm.Run(mk(e, A), qargs...) })
 			if pan != nil || over || T == nil {
-				return false
+				return
 			}
 			tm := get(T)
 			for i := 0; i+1 < n; i++ {
 				if tm.At(i+1, i) != 0 {
-					return true
+					if discNonNegative(tm.At(i, i), tm.At(i, i+1), tm.At(i+1, i), tm.At(i+1, i+1)) {
+						real = true
+					} else {
+						cplx = true
+					}
 				}
 			}
-			return false
+			return
 		}
 		// with the default epsilon and with the epsilon of the case (eigensystem may or may not
-		// forward it): either way this only decides whether a failing eigenvector check on a
-		// repeated root is skipped
-		split := func() bool {
-			return splitWith() || cs.has("Eps") && splitWith(qrAlgorithm.Epsilon{Value: 1e-12})
+		// forward it). A complex block only decides whether a failing eigenvector check on a
+		// repeated root is skipped; a real block names the cause of a failing eigenvector check
+		// (the Schur form is not one) and is never a reason to skip
+		split := func() (bool, bool) {
+			c1, r1 := splitWith()
+			if cs.has("Eps") {
+				c2, r2 := splitWith(qrAlgorithm.Epsilon{Value: 1e-12})
+				c1, r1 = c1 || c2, r1 || r2
+			}
+			if wantsSym(cs.Opts) {
+				r1 = false
+			}
+			return c1, r1
 		}
 		checkEigen(f, A, getVec(ev), vp, &sp, graded, split, &out.skipped)
 	// ------------------------------------------------------------------ msqrt / msqrtInv
